@@ -88,17 +88,27 @@ def main():
         ctx.changed_source = ["fingerprint failed: %r" % e]
     if ctx.changed_source and args.tier == "quick" and args.n is None:
         ctx.budget = 4      # the code under the model has moved: exercise the tie harder
+    crashed = None
     try:
         P["run"](ctx)
     except SystemExit:
         raise
     except Exception as e:
         traceback.print_exc()
-        infra("stream crashed: %s" % e)
-    if ctx.infra:
+        crashed = "stream crashed: %s: %s\n%s" % (type(e).__name__, e, traceback.format_exc()[-1500:])
+    if ctx.infra and not crashed:
         for m in ctx.infra[:5]:
             print("INFRA:", m)
-        infra("%d case(s) failed inside the harness" % len(ctx.infra))
+        crashed = "%d case(s) failed inside the harness; first: %s" % (len(ctx.infra), ctx.infra[0])
+    if crashed:
+        # On the code the model was validated against, a crash of the machinery is an infrastructure failure
+        # (exit 2, never a verdict).  When the modelled functions have changed since then, the correspondence
+        # check could not be carried out on this code: the tie is broken, which is reported like any other
+        # broken correspondence (the search below still looks for a failing input in what did run).
+        if not ctx.changed_source:
+            infra(crashed.splitlines()[0])
+        ctx.footprint_disagreements.append(dict(phase="harness", detail=crashed,
+                                                note="the correspondence check could not run to the end on this (changed) code"))
 
     # 4. decision
     known = [k for k in load_known() if k.get("property") == pid and k.get("status") == "finding"]
